@@ -547,7 +547,9 @@ func main() {
 		os.Exit(doReplay(*replay))
 	}
 
-	r := hx.NewRng(uint64(*seed))
+	// hx.NewRng(k+1) is hx.NewRng(k) shifted by one draw; spread the seeds so that runs with
+	// neighbouring seeds explore different inputs
+	r := hx.NewRng(uint64(*seed)*0x2545F4914F6CDD1D + 0x9E3779B9)
 	sum := hx.NewSummary("C06")
 	sum.Rule = "K: model check (coq/Expr/Sema.v) vs ExprSemanticsChecker.Check on (env, expr): ordered (line, col, class) + result type; oracle: accepted under env => accepted under every single-point loosening, with a looser result type"
 	st := &stats{nodes: map[string]int{}, funcs: map[string]int{}}
